@@ -142,6 +142,26 @@ def oracle_problem(rng, seq, descs, out):
         out.append(dict(kind="localized-choices", input=dict(inp, location=[a, b]),
                         detail="got %s want %s" % (fmt_choices(loc.choices_list), fmt_choices(want))))
     n_checks += 1
+    # building a derived space (new constraints on top of this one, as the pattern-insertion heuristic does) must not
+    # alter this space: its index, its choices and its localizations stay what they were
+    try:
+        import dnachisel as dc
+        from dnachisel.MutationSpace import MutationSpace
+        snap = [None if c is None else (c.start, c.end, tuple(sorted(str(v) for v in c.variants))) for c in space.choices_index]
+        a2 = rng.randint(0, n - 1)
+        b2 = rng.randint(a2 + 1, min(n, a2 + 4))
+        stub.mutation_space = space
+        new_c = dc.EnforceSequence(sequence=seq[a2:b2], location=(a2, b2, 1)).initialized_on_problem(stub, role="constraint")
+        MutationSpace.from_optimization_problem(stub, new_constraints=[new_c])
+        snap2 = [None if c is None else (c.start, c.end, tuple(sorted(str(v) for v in c.variants))) for c in space.choices_index]
+        loc_again = space.localized((a, b))
+        if snap != snap2 or fmt_choices(loc_again.choices_list) != fmt_choices(want):
+            out.append(dict(kind="derived-space-altered-parent", input=dict(inp, location=[a, b], new_restriction=[a2, b2]),
+                            detail="localized(%d, %d) now gives %s, the space's choices there are %s" % (
+                                a, b, fmt_choices(loc_again.choices_list), fmt_choices(want))))
+        n_checks += 1
+    except Exception:
+        pass
     # well-formedness hypothesis of the Lean theorems (C12.SpaceWF / C15.ChoicesFit): sorted, pairwise
     # disjoint, non-empty segments inside the sequence, variants of the segment's length, no duplicates
     for name, cl in (("space", space.choices_list), ("localized-multichoices", loc.multichoices)):
